@@ -5,26 +5,32 @@ Line-protocol driver for the DataCollector / batch_run models (C12, C13, C18-col
 One output line per input line.  Producer: harness/collect_common.py.
 
   scenario collect|batch        reset
-  classes p0 p1 …               class i derives from class p_i (< i) or, with `-`, directly from Agent;
+  classes p0 p1 …               class i derives from class p_i (< i), from several with `p+q+…` (multiple inheritance,
+                                bases in that order) or, with `-`, directly from Agent;
                                 ids ≥ the number of classes are types that are not Agent subclasses
-  mrep attr a | mrep fn F | mrep meth F | mrep args k d G          model reporter (named m0, m1, … in order)
+  mrep attr a | mrep fn F | mrep part F | mrep meth F | mrep args k d G   model reporter (named m0, m1, … in order;
+                                                                   fn = lambda / def, part = functools.partial)
   arep attr a | arep fn A | arep meth A | arep args k d AG         agent reporter (a0, a1, …)
   trep T rep ; rep ; …                                             agent-type reporters of class T
   table t c0 c1 …
-    F: count | steps | sum a | get a      G: lin a | cnt      A: get a | id | twice a | steps     AG: lin a
+    F: count | steps | sum a | get a | req a     G: lin a | cnt | lreq a
+    A: get a | id | twice a | steps | req a      AG: lin a | lreq a
+    (`req a` / `lreq a` read the attribute directly: AttributeError when it is missing)
   -- scenario collect
   start                          construct the DataCollector
   create ty a=v … | remove id | step | mset a v | mapp a x | mdel a | aset id a v | adel id a
   collect | row t ign|strict c=v … | stop k
+  reorder rev|rot                model.agents.shuffle(inplace=True) drawing the reversal / the rotation by one
+  reorder ida|idd | reorder ata|atd a     model.agents.sort(key, ascending, inplace=True) by unique_id / int attribute a
   mvars | mframe | aframe | tframe T | tab t            (observations)
   -- scenario batch
   init op ; op ; …   body op ; op ; …     op templates: `$p` in an int position = the int carried by
                                           kwarg p (token `i<k>` ↦ k, other tokens ↦ sum of char codes,
                                           absent ↦ 0); `rep n op` = n copies
-  param p str|sized|iter|scalar tok …
+  param p str|sized|iter|scalar|once tok …             (once = a one-shot iterator: generator / iter(...))
   kwargs                         → the list of kwargs dicts
-  run iterations max_steps period
-  runp iterations max_steps period number_processes     (rows compared after ordering the runs by RunId)
+  run iterations max_steps period [prog]                (prog: display_progress=True; no effect on the result)
+  runp iterations max_steps period number_processes [prog]   (rows compared after ordering the runs by RunId)
   Values: N | int | L | Lx,y,…
 -/
 open Mesa.Collect Mesa.Batch
@@ -54,44 +60,60 @@ def parsePair (w : String) : Option (Nat × Val) :=
 def sumAttr (sn : Snap) (a : Nat) : Int :=
   sn.agents.foldl (fun acc ag => match getAttr ag.attrs a with | .int v => acc + v | _ => acc) 0
 
-def parseF : List String → Option (Snap → Val)
-  | ["count"] => some fun sn => .int sn.agents.length
-  | ["steps"] => some fun sn => .int sn.steps
-  | ["sum", a] => do let a ← a.toNat?; pure fun sn => .int (sumAttr sn a)
-  | ["get", a] => do let a ← a.toNat?; pure fun sn => getAttr sn.attrs a
+def needAttr (attrs : List (Nat × Val)) (a : Nat) : Except Err Val :=
+  match attrs.lookup a with
+  | some v => .ok v
+  | none => .error .attr
+
+def parseF : List String → Option (Snap → Except Err Val)
+  | ["count"] => some fun sn => .ok (.int sn.agents.length)
+  | ["steps"] => some fun sn => .ok (.int sn.steps)
+  | ["sum", a] => do let a ← a.toNat?; pure fun sn => .ok (.int (sumAttr sn a))
+  | ["get", a] => do let a ← a.toNat?; pure fun sn => .ok (getAttr sn.attrs a)
+  | ["req", a] => do let a ← a.toNat?; pure fun sn => needAttr sn.attrs a
   | _ => none
 
-def parseG : List String → Option (List Int → Snap → Val)
+def linVal (args : List Int) : Val → Val
+  | .int v => match args with
+    | [k, d] => .int (k * v + d)
+    | _ => .none
+  | _ => .none
+
+def parseG : List String → Option (List Int → Snap → Except Err Val)
   | ["lin", a] => do
       let a ← a.toNat?
-      pure fun args sn => match args, getAttr sn.attrs a with
-        | [k, d], .int v => .int (k * v + d)
-        | _, _ => .none
+      pure fun args sn => .ok (linVal args (getAttr sn.attrs a))
+  | ["lreq", a] => do
+      let a ← a.toNat?
+      pure fun args sn => (needAttr sn.attrs a).map (linVal args)
   | ["cnt"] => some fun args sn => match args with
-      | [k, d] => .int (k * sn.agents.length + d)
-      | _ => .none
+      | [k, d] => .ok (.int (k * sn.agents.length + d))
+      | _ => .ok .none
   | _ => none
 
-def parseA : List String → Option (Snap → AgentS → Val)
-  | ["get", a] => do let a ← a.toNat?; pure fun _ ag => getAttr ag.attrs a
-  | ["id"] => some fun _ ag => .int ag.id
+def parseA : List String → Option (Snap → AgentS → Except Err Val)
+  | ["get", a] => do let a ← a.toNat?; pure fun _ ag => .ok (getAttr ag.attrs a)
+  | ["req", a] => do let a ← a.toNat?; pure fun _ ag => needAttr ag.attrs a
+  | ["id"] => some fun _ ag => .ok (.int ag.id)
   | ["twice", a] => do
       let a ← a.toNat?
-      pure fun _ ag => match getAttr ag.attrs a with | .int v => .int (2 * v) | _ => .none
-  | ["steps"] => some fun sn _ => .int sn.steps
+      pure fun _ ag => match getAttr ag.attrs a with | .int v => .ok (.int (2 * v)) | _ => .ok .none
+  | ["steps"] => some fun sn _ => .ok (.int sn.steps)
   | _ => none
 
-def parseAG : List String → Option (List Int → Snap → AgentS → Val)
+def parseAG : List String → Option (List Int → Snap → AgentS → Except Err Val)
   | ["lin", a] => do
       let a ← a.toNat?
-      pure fun args _ ag => match args, getAttr ag.attrs a with
-        | [k, d], .int v => .int (k * v + d)
-        | _, _ => .none
+      pure fun args _ ag => .ok (linVal args (getAttr ag.attrs a))
+  | ["lreq", a] => do
+      let a ← a.toNat?
+      pure fun args _ ag => (needAttr ag.attrs a).map (linVal args)
   | _ => none
 
 def parseMRep : List String → Option MRep
   | ["attr", a] => do pure (.attr (← a.toNat?))
   | "fn" :: f => do pure (.fn (← parseF f))
+  | "part" :: f => do pure (.part (← parseF f))
   | "meth" :: f => do pure (.meth (← parseF f))
   | "args" :: k :: d :: g => do pure (.fnArgs (← parseG g) [← k.toInt?, ← d.toInt?])
   | _ => none
@@ -121,11 +143,17 @@ def parseOp : List String → Option Op
       let ign ← (if m = "ign" then some true else if m = "strict" then some false else none)
       pure (.row (← t.toNat?) (← ps.mapM parsePair) ign)
   | ["stop", k] => do pure (.stopAt (← k.toNat?))
+  | ["reorder", "rev"] => some (.reorder .rev)
+  | ["reorder", "rot"] => some (.reorder .rot)
+  | ["reorder", "ida"] => some (.reorder (.byId true))
+  | ["reorder", "idd"] => some (.reorder (.byId false))
+  | ["reorder", "ata", a] => do pure (.reorder (.byAttr (← a.toNat?) true))
+  | ["reorder", "atd", a] => do pure (.reorder (.byAttr (← a.toNat?) false))
   | _ => none
 
 def fmtErr : Err → String
   | .attr => "err Attr" | .value => "err Value" | .key => "err Key" | .unknown => "err Unknown"
-  | .missing => "err Missing" | .warn => "err Warn" | .index => "err Index"
+  | .missing => "err Missing" | .warn => "err Warn" | .index => "err Index" | .runtime => "err Runtime"
 
 def fmtRow (r : Row) : String := s!"{r.step}/{r.id}:{fmtVals r.vals}"
 
@@ -137,19 +165,20 @@ def fmtCols (pre : String) (cols : List (Nat × List Val)) : List String :=
 
 /-! class hierarchy -/
 
-def isSubF (parents : List (Option Nat)) : Nat → Nat → Nat → Bool
+/-- `issubclass(c, T)`: `T` is `c` or reachable from `c` through the bases (a class may have several) -/
+def isSubF (parents : List (List Nat)) : Nat → Nat → Nat → Bool
   | 0, c, T => c == T
-  | f + 1, c, T => c == T || match parents[c]? with
-      | some (some p) => isSubF parents f p T
-      | _ => false
+  | f + 1, c, T => c == T || (parents[c]?.getD []).any fun p => isSubF parents f p T
 
-def parseParents (ws : List String) : Option (List (Option Nat)) :=
-  let rec go (i : Nat) : List String → Option (List (Option Nat))
+/-- `-` = derives directly from Agent; `p` or `p+q+…` = the bases, each an earlier class -/
+def parseParents (ws : List String) : Option (List (List Nat)) :=
+  let rec go (i : Nat) : List String → Option (List (List Nat))
     | [] => some []
     | w :: rest =>
-      if w = "-" then (go (i + 1) rest).map (none :: ·)
-      else match w.toNat? with
-        | some p => if p < i then (go (i + 1) rest).map (some p :: ·) else none
+      if w = "-" then (go (i + 1) rest).map ([] :: ·)
+      else match (w.splitOn "+").mapM String.toNat? with
+        | some ps => if ps ≠ [] && ps.all (· < i) && ps.eraseDups.length = ps.length
+            then (go (i + 1) rest).map (ps :: ·) else none
         | none => none
   go 0 ws
 
@@ -193,7 +222,7 @@ def templateOk (tmpl : List (List String)) : Bool :=
 structure DSt where
   mode : Nat                       -- 0 none, 1 collect, 2 batch
   started : Bool
-  parents : List (Option Nat)
+  parents : List (List Nat)
   mreps : List MRep
   areps : List ARep
   treps : List (Nat × List ARep)
@@ -243,6 +272,7 @@ def parsePVal (kind : String) (toks : List String) : Option (PVal String) :=
   | "scalar", [t] => some (.scalar t)
   | "sized", ts => some (.sized ts)
   | "iter", ts => some (.iter ts)
+  | "once", ts => some (.once ts)
   | _, _ => none
 
 def defLine (d : DSt) (ws : List String) : Option DSt :=
@@ -323,7 +353,7 @@ def stepLine (d : DSt) (ws : List String) : DSt × String :=
         | .ok kws => (d, " ".intercalate ("ok" :: kws.map fmtKw))
         | .error e => (d, fmtErr e)
       | "run" =>
-        match rest with
+        match (if rest.getLast? = some "prog" then rest.dropLast else rest) with
         | [it, ms, per] =>
           match it.toNat?, ms.toNat?, per.toInt? with
           | some it, some ms, some per => (d, runOut d it ms per)
@@ -332,7 +362,7 @@ def stepLine (d : DSt) (ws : List String) : DSt × String :=
       | "runp" =>
         -- number_processes = np > 1: the runs come back in any order; the harness orders the
         -- runs' row chunks by RunId, which is the serial result (C13_parallel_perm_serial)
-        match rest with
+        match (if rest.getLast? = some "prog" then rest.dropLast else rest) with
         | [it, ms, per, np] =>
           match it.toNat?, ms.toNat?, per.toInt?, np.toNat? with
           | some it, some ms, some per, some np => if np = 0 then (d, "bad-op") else (d, runOut d it ms per)
